@@ -154,9 +154,9 @@ def _locate(flat, name, loaded, fams, ndim, collisions, same):
     if fam["merged"] and not collided:
         cands = [(fam["merged"], letter)]
     else:
-        cands = [k for k in flat if k[1] == letter]
-        if collided:
-            cands.append((name, ""))
+        # preferred candidates first (own name, documented merged name), then any vector component of that letter
+        cands = ([(name, "")] if collided else []) + ([(fam["merged"], letter)] if fam["merged"] else [])
+        cands += [k for k in flat if k[1] == letter and k not in cands]
     for k in cands:
         if k in flat and same(flat[k]):
             return k, None
@@ -222,9 +222,12 @@ def subset(case, r):
             f, _ = rm.var_factor(name, m.ud, m.ul, m.ut)
             want = np.concatenate([np.asarray(m.part[k][name], dtype=np.float64) for k in range(m.ncpu)]) * f
 
-            def same(a, want=want):
-                g, _ = rc.phys(a)
-                return g.shape == want.shape and bool(np.all(np.abs(g - want) <= 1e-12 * np.abs(want)))
+            _, wdims = rm.var_factor(name, m.ud, m.ul, m.ut)
+
+            def same(a, want=want, wdims=wdims):
+                g, u = rc.phys(a)
+                return rc.dims_close(u[1], wdims) and g.shape == want.shape and bool(
+                    np.all(np.abs(g - want) <= 1e-12 * np.abs(want)))
             k, why = _locate(flat_full["part"], name, set(part_raw), fams["part"], ndim, coll, same)
             if k is None and ntot > 0:
                 kind = "variable-lost-by-merge" if name in coll else "variable-missing-or-wrong"
